@@ -21,6 +21,7 @@ type LoadConfig struct {
 	OverlaySrc map[string][]byte // virtual file name -> content (takes precedence)
 	Instrument bool              // rewrite repo + harness sources with scheduling points (see instr.go)
 	VfDecls    []byte            // vf_engine.go template (package PKG), added to dependency packages when instrumenting
+	Tests      bool              // load the package together with its _test.go files (translator validation)
 }
 
 // Load type-checks the target package of /repo's current working tree with the harness overlay and builds SSA.
@@ -84,6 +85,7 @@ func Load(cfg LoadConfig) (*Program, error) {
 		Mode: packages.NeedName | packages.NeedFiles | packages.NeedCompiledGoFiles | packages.NeedImports |
 			packages.NeedDeps | packages.NeedTypes | packages.NeedSyntax | packages.NeedTypesInfo | packages.NeedTypesSizes | packages.NeedModule,
 		Dir:     dir,
+		Tests:   cfg.Tests,
 		Overlay: overlay,
 		Env:     append(os.Environ(), "GOFLAGS=-mod=mod", "GOPROXY=off", "GOSUMDB=off", "GOTOOLCHAIN=local", "CGO_ENABLED=0"),
 	}
@@ -99,6 +101,18 @@ func Load(cfg LoadConfig) (*Program, error) {
 	})
 	if len(errs) > 0 {
 		return nil, fmt.Errorf("load errors:\n%s", strings.Join(errs, "\n"))
+	}
+	if cfg.Tests {
+		// keep the test variant "pkg [pkg.test]" (it contains the package's own files plus its _test.go files)
+		var sel []*packages.Package
+		for _, ip := range initial {
+			if strings.Contains(ip.ID, " [") && !strings.HasSuffix(ip.PkgPath, ".test") && !strings.HasSuffix(ip.PkgPath, "_test") {
+				sel = append(sel, ip)
+			}
+		}
+		if len(sel) > 0 {
+			initial = sel[:1]
+		}
 	}
 	prog, pkgs := ssautil.AllPackages(initial, ssa.InstantiateGenerics|ssa.BareInits)
 	prog.Build()
@@ -176,6 +190,18 @@ func (p *Program) Harnesses(prefix string) []*ssa.Function {
 	var fs []*ssa.Function
 	for name, mem := range p.Main.Members {
 		if f, ok := mem.(*ssa.Function); ok && strings.HasPrefix(name, prefix) && f.Signature.Params().Len() == 0 {
+			fs = append(fs, f)
+		}
+	}
+	sort.Slice(fs, func(i, j int) bool { return fs[i].Name() < fs[j].Name() })
+	return fs
+}
+
+// TestFuncs lists the Test* functions of the main package (loaded with Tests: true), sorted.
+func (p *Program) TestFuncs() []*ssa.Function {
+	var fs []*ssa.Function
+	for name, mem := range p.Main.Members {
+		if f, ok := mem.(*ssa.Function); ok && strings.HasPrefix(name, "Test") && f.Signature.Params().Len() == 1 {
 			fs = append(fs, f)
 		}
 	}
